@@ -19,6 +19,9 @@ PAR = "rspirv::binary::parser"
 TRK = "rspirv::binary::tracker"
 
 
+from .litx import lit_eval, tracked_value, literal_ints_of, track_eval, literal_results  # noqa: E402,F401
+
+
 class NoMatch(Exception):
     pass
 
@@ -94,25 +97,6 @@ def literal_ints(n):
     return out
 
 
-def literal_results(ctx):
-    """all (variant, decoder method) pairs parse_literal can produce (Anchor if a result is not Operand::V(self.decoder.m()?))"""
-    f = ctx.rspirv.fn(PAR, "parse_literal", "Parser")
-    st = f["body"][1]
-    tid = f["sig"]["params"][1][0]
-    if not (len(st) == 2 and st[0][0] == "local" and show(st[0][3]) == "self.type_tracker.resolve(%s)" % tid and st[1][0] == "expr"):
-        raise Anchor("parse_literal is not `let t = self.type_tracker.resolve(type_id); match t {..}`")
-    tv = st[0][1][1]
-    lits = literal_ints(st[1][1]) | {8, 16, 32, 64}
-    out = set()
-    for kind in ("none", "Integer", "Float"):
-        for w in ([None] if kind == "none" else sorted(lits)):
-            v = ("none",) if kind == "none" else ("some", ("type", kind, [w, True] if kind == "Integer" else [w]))
-            r = eval_lit(st[1][1], {tv: v})
-            if r[0] == "ok":
-                out.add((r[1], r[2]))
-    return out
-
-
 def run(ctx, chk):
     raw = ctx.raw
     mir = ctx.mir("rspirv")
@@ -121,25 +105,17 @@ def run(ctx, chk):
                   "via bit64), any other integer width -> TypeUnsupported(offset, n); Float 16/32 -> one word, 64 -> two words, other -> "
                   "TypeUnsupported; unknown type id -> one word")
     W = raw.where("parse_literal", "Parser")
-    f = ctx.rspirv.fn(PAR, "parse_literal", "Parser")
-    st = f["body"][1]
-    tid = f["sig"]["params"][1][0]
-    if not (len(st) == 2 and st[0][0] == "local" and show(st[0][3]) == "self.type_tracker.resolve(%s)" % tid and st[1][0] == "expr"):
-        raise Anchor("parse_literal is not `let t = self.type_tracker.resolve(type_id); match t {..}`")
-    tv = st[0][1][1]
-    lits = literal_ints(st[1][1]) | {8, 16, 32, 64}
+    lits = literal_ints_of(ctx)
     widths = sorted(set([0, 1, 2 ** 32 - 1, 128] + [w + d for w in lits for d in (-1, 0, 1) if w + d >= 0]))
     ncell = 0
     for kind in ("none", "Integer", "Float"):
         for w in ([None] if kind == "none" else widths):
             for signed in ([None] if kind != "Integer" else [True, False]):
-                if kind == "none":
-                    v = ("none",)
-                elif kind == "Integer":
-                    v = ("some", ("type", "Integer", [w, signed]))
-                else:
-                    v = ("some", ("type", "Float", [w]))
-                res = eval_lit(st[1][1], {tv: v})
+                try:
+                    res = lit_eval(ctx, tracked_value(kind, w, signed))
+                except Anchor as ex:
+                    chk.bad(R1, "type=%s width=%s" % (kind, w), "parse_literal is not analysable for this case: %s" % ex, W, key="C10:parse_literal-shape")
+                    continue
                 ncell += 1
                 if kind == "none":
                     want = ("ok", "LiteralBit32", "bit32")
@@ -158,35 +134,33 @@ def run(ctx, chk):
                   "for instructions with a result id, and propagates the tracked type of the result type to the result id of every "
                   "non-type instruction; these are the only writes of the type map; resolve() is a pure lookup")
     WT = raw.where("track", "TypeTracker")
-    tf = ctx.rspirv.fn(TRK, "track", "TypeTracker")
-    ins = sites(tf["body"], lambda n: n[0] == "mcall" and n[2] == "insert" and show(n[1]) == "self.types")
-    chk.check(R2, len(ins) == 3, "insert-sites=3", "%d insertion sites" % len(ins), WT)
-    seen = set()
-    for n, conds in ins:
-        args = [show(a) for a in n[3]]
-        c = " && ".join(conds)
-        has_rid = "let Some(rid) = inst.result_id" in c or re.search(r"let Some\((\w+)\) = inst\.result_id", c)
-        if len(args) == 2 and args[1].startswith("Type::Integer("):
-            seen.add("int")
-            good = has_rid and "grammar::reflect::is_type(inst.class.opcode)" in c and "inst.class.opcode matches spirv::Op::TypeInt" in c and \
-                re.search(r"let \(&dr::Operand::LiteralBit32\((\w+)\), &dr::Operand::LiteralBit32\((\w+)\)\) = \(&inst\.operands\[0\], &inst\.operands\[1\]\)", c) is not None
-            if good:
-                m = re.search(r"let \(&dr::Operand::LiteralBit32\((\w+)\), &dr::Operand::LiteralBit32\((\w+)\)\)", c)
-                good = args[1] == "Type::Integer(%s, (%s == 1))" % (m.group(1), m.group(2)) and args[0] == "rid"
-            chk.check(R2, bool(good), "track:TypeInt", "Integer recorded as %s under [%s]" % (args, c), WT, sample=args)
-        elif len(args) == 2 and args[1].startswith("Type::Float("):
-            seen.add("float")
-            m = re.search(r"let dr::Operand::LiteralBit32\((\w+)\) = inst\.operands\[0\]", c)
-            good = has_rid and "inst.class.opcode matches spirv::Op::TypeFloat" in c and m is not None and args[1] == "Type::Float(%s)" % m.group(1) and args[0] == "rid"
-            chk.check(R2, bool(good), "track:TypeFloat", "Float recorded as %s under [%s]" % (args, c), WT, sample=args)
-        else:
-            seen.add("prop")
-            good = has_rid and "!(grammar::reflect::is_type(inst.class.opcode))" in c and args == ["rid", "t"]
-            # the propagated value is resolve(result_type)
-            whole = [show(x) for x in walk(tf["body"]) if x[0] == "mcall" and x[2] == "map" and "self.types.insert" in show(x)]
-            good = good and len(whole) == 1 and whole[0].startswith("inst.result_type.and_then(|t| self.resolve(t)).map(|t| self.types.insert(rid, t))")
-            chk.check(R2, bool(good), "track:propagate", "propagation is %s under [%s]" % (whole, c), WT)
-    chk.check(R2, seen == {"int", "float", "prop"}, "track:all-three", "insertion kinds %s" % sorted(seen), WT)
+    B = ("sym", "BITS")
+    lit = lambda v: ("enum", "Operand::LiteralBit32", [v])
+    cases = []
+    for rid in (True, False):
+        for sign in (0, 1, 2):
+            cases.append(("TypeInt sign=%d rid=%s" % (sign, rid), rid, "TypeInt", [lit(B), lit(sign)], False, False,
+                          [(("sym", "RID"), ("enum", "Type::Integer", [B, sign == 1]))] if rid else []))
+        cases.append(("TypeFloat rid=%s" % rid, rid, "TypeFloat", [lit(B)], False, False, [(("sym", "RID"), ("enum", "Type::Float", [B]))] if rid else []))
+        cases.append(("TypeVoid rid=%s" % rid, rid, "TypeVoid", [], False, False, []))
+        cases.append(("TypeVector rid=%s" % rid, rid, "TypeVector", [("enum", "Operand::IdRef", [("sym", "X")]), lit(4)], False, False, []))
+        for op in ("IAdd", "Constant", "FunctionParameter", "Load"):
+            cases.append(("%s typed+resolvable rid=%s" % (op, rid), rid, op, [], True, True, [(("sym", "RID"), ("sym", "RESOLVED"))] if rid else []))
+            cases.append(("%s typed+unknown-type rid=%s" % (op, rid), rid, op, [], True, False, []))
+            cases.append(("%s untyped rid=%s" % (op, rid), rid, op, [], False, False, []))
+    cases.append(("TypeInt non-literal operands rid=True", True, "TypeInt", [("enum", "Operand::IdRef", [("sym", "X")]), ("enum", "Operand::IdRef", [("sym", "Y")])], False, False, []))
+    ntr = 0
+    for name, rid, op, operands, rtype, resolvable, want in cases:
+        try:
+            res = track_eval(ctx, rid, op, operands, rtype, resolvable)
+        except Anchor as ex:
+            chk.bad(R2, "track(%s)" % name, "TypeTracker::track is not analysable: %s" % ex, WT, key="C10:track-shape")
+            continue
+        ntr += 1
+        chk.check(R2, res == ("ok", want), "track(%s)" % name, "records %s, expected %s" % (res, want), WT, key="C10:track:%s" % name.split(" rid=")[0],
+                  sample=str(res) if name.startswith("TypeInt sign=1") else None)
+    chk.floor(R2, "track cases", ntr, 30)
+    ins = []
     rf = ctx.rspirv.fn(TRK, "resolve", "TypeTracker")
     chk.check(R2, [show_stmt(s) for s in rf["body"][1]] == ["self.types.get(&%s).cloned()" % rf["sig"]["params"][1][0]], "resolve=lookup",
               "resolve is %s" % [show_stmt(s) for s in rf["body"][1]], raw.where("resolve", "TypeTracker"))
@@ -267,4 +241,4 @@ def run(ctx, chk):
     from .c02 import bit64_low_first
     chk.check(R5, dm.get("bit32", {}).get("cls") == "word" and "bit64" in dm and bit64_low_first(dm["bit64"]["fn"]), "decoder:bit32/bit64",
               "bit32 is not one word() or bit64 is not (second << 32) | first", raw.where("bit64", "Decoder"))
-    chk.analysed.update({"width_cells": ncell, "widths_tested": widths, "track_insert_sites": len(ins)})
+    chk.analysed.update({"width_cells": ncell, "widths_tested": widths, "track_cases": ntr})
